@@ -451,7 +451,15 @@ class Session:
             return out, "checkify"
         return fn(key, *dyn), None
 
-    def boundary(self, rep, perts, rec):
+    def boundary(self, rep, perts, rec, step=-1):
+        try:
+            return self._boundary(rep, perts, rec)
+        except Exception as e:
+            # a trace that cannot cross a pytree boundary
+            self.viol("C23.boundary-crash", {"C23"}, step, rep, "pushing the trace through %s raised %s: %s" % ([p for p in perts if p.startswith("boundary")], type(e).__name__, str(e)[:300]), "crash")
+            return rec.tr
+
+    def _boundary(self, rep, perts, rec):
         tr = rec.tr
         if "boundary:flatten" in perts:
             leaves, td = jtu.tree_flatten(tr)
@@ -695,7 +703,7 @@ class Session:
         if src is None:
             return {"op": st["op"], "outcome": "skipped:no-src"}
         op = st["op"]
-        tr = self.boundary(rep, perts, src)
+        tr = self.boundary(rep, perts, src, i)
         new_args = st["args"] if st["args"] is not None else src.args
         retag = "tag:unknown" in perts and op not in ("index_edit",) and not has_kind(self.node, ("switch", "or_else"))
         if retag:
@@ -911,7 +919,7 @@ class Session:
         e = tgt.edit
         src = e["src"]
         bwd = e["bwd"]
-        tr = self.boundary(rep, perts, tgt)
+        tr = self.boundary(rep, perts, tgt, i)
         argdiffs, changed = argdiffs_for(self.node, tgt.args, src.args, enc, False)
         try:
             (rtr, w, rd, bwd2), staged = self.run_staged(rep, perts, lambda k, t, r, ad: r.edit(k, t, ad), st["key"], tr, bwd, argdiffs)
@@ -946,7 +954,7 @@ class Session:
         if src is None:
             return {"op": "project", "outcome": "skipped:no-src"}
         sel = sel_build(st["sel"])
-        tr = self.boundary(rep, perts, src)
+        tr = self.boundary(rep, perts, src, i)
         gf = tr.get_gen_fn()
         if st.get("api") == "gf":
             fn = lambda k, t, s: gf.project(k, t, s)  # noqa: E731
